@@ -33,7 +33,18 @@ fn body_alpha(third: bool) -> Alpha {
         not: true,
         bins: vec![Bin::And, Bin::Or, Bin::Implies, Bin::Iff],
         ite: true,
-        quants: vec![(true, vec![s("a")]), (false, vec![s("a")]), (true, vec![s("b")]), (true, vec![s("X")]), (false, vec![s("a"), s("b")])],
+        // binder lists that re-bind the fixed-point name among other names, in several orders
+        quants: vec![
+            (true, vec![s("a")]),
+            (false, vec![s("a")]),
+            (true, vec![s("b")]),
+            (true, vec![s("X")]),
+            (false, vec![s("a"), s("b")]),
+            (true, vec![s("a"), s("X")]),
+            (false, vec![s("X"), s("b")]),
+            (true, vec![s("b"), s("a"), s("X")]),
+            (false, vec![s("a"), s("X"), s("b")]),
+        ],
         // three distinct binder names: the top-level X, and Y, Z (so that an innermost fixed
         // point can mention the middle binder but not the outermost one)
         fps: vec![(s("X"), false), (s("X"), true), (s("Y"), false), (s("Y"), true), (s("Z"), false), (s("Z"), true)],
